@@ -193,6 +193,7 @@ theorem mstep (c : Cfg) (K : Int) (t : Nat) (hI : MInv c K) (he : enabled c t = 
       cases s with
       | inc o => simp [pendOf, idleSum] at hpo
       | dec o => simp [pendOf, idleSum] at hpo
+      | use o => simp [pendOf, idleSum] at hpo
       | add k d => simp [pendOf, idleSum] at hpo
       | lock m =>
         obtain ⟨rfl, d, rest', p', rfl, hidle, hr⟩ := inv_lock m rest _ hpo
